@@ -19,6 +19,14 @@ claims={
    text="NewMatchingResult and GetDNSBasicRule are proved, for any slice lengths and any order, to select a basic rule that is (a) a member of the effective rules (not disabled by a $badfilter twin, not a $badfilter rule, not a $dnsrewrite rule, not a cookie/replace/csp/stealth rule, and for blocking rules not suppressed by an effective $urlblock / $genericblock document exception of the referrer), (b) nil exactly when there is no such candidate, and (c) not outranked by any candidate, hence of maximal verdict class; the document-level flags are proved equal to order-free existential statements over the referrer rules, so the verdict class cannot depend on rule order or list split. GetBasicResult is proved equal to its three-way specification.",
    note=TB+"; callee contracts used: removeBadfilterRules, removeDNSRewriteRules, IsHigherPriority (all discharged under C08/C07); Engine.MatchRequest / NetworkEngine.Match compose MatchAll with these and are not yet under contract.",
    ref="5 C06", tech="contract-based deductive verification: loop invariants, induction lemmas, SMT portfolio"),
+ "C09":dict(level="proof",
+   text="DNSRewritesAll, matchException, removeMatchingException and DNSRewrites are proved for any number and any positions of rewrites and exceptions: the result contains no exception rule, and a rule is in the result iff it is a non-exception rewrite of the DNS result that no exception of the result disables, where 'disables' is the documented relation (empty-valued exception: all non-important rewrites, all rewrites if itself important; valued exception: same new CNAME, or same response code and for successful responses same record type and structurally equal value; non-important exceptions never disable important rewrites). The result lives in fresh memory; res.NetworkRules is not written.",
+   note=TB+"; slices.DeleteFunc enters as an assumed contract (stable in-place filter, parameterised by the contract of the closure passed to it) and reflect.DeepEqual as structural equality; the relative order of surviving rules is NOT part of the proved postcondition (membership only).",
+   ref="5 C09", tech="contract-based deductive verification: loop invariants over fold specs, closure contracts, SMT portfolio"),
+ "C12":dict(level="proof",
+   text="Crash-freedom sweep: every function of packages rules, filterutil, lookup, filterlist and the root package (network engine, DNS engine, DNS rewrites; 200+ functions, with or without a functional contract) is verified against the generated safety obligations - index and slice bounds with symbolic lengths, nil dereferences, nil-map writes, failed type assertions, division by zero, explicit panics and int overflow - using thin contracts (non-nil pointer arguments, data invariants of the engine structures, frames) that are themselves checked at every call site; the constructors are proved to return either an error and nil, or a rule whose text and list id are the ones given.",
+   note=TB+"; NOT covered: the cosmetic engine (its obligations are filed under C15, not yet claimed), package initialisers, termination, panics inside library code (regexp, publicsuffix, netip are assumed total), and the 'inert lines do not change results' half of the property (needs the scanner contracts of C11). Two overflow obligations are assumptions (scanner position and rule counters below 2^62), listed in the evidence.",
+   ref="5 C12", tech="contract-based deductive verification: zero/thin-annotation safety sweep, WP over go/ssa, SMT portfolio"),
  "C10":dict(level="proof",
    text="Every $dnsrewrite loader and every registered record-type handler is proved to return either an error with a nil rewrite or a rewrite satisfying the published shape predicate (CNAME carries nothing else; a record type only with RCODE success; dynamic type of the value determined by the record type; PTR values end in a dot), for all input strings; each handler is checked against the contract of the handler function type under the key it is registered with in the package initialiser, and the dispatch in loadDNSRewriteNormal uses only that contract. All index, slice, nil and type-assertion obligations of these functions are discharged (no crash).",
    note=TB+"; netip.ParseAddr/Is4, strconv.ParseUint, dns.Fqdn, strings.Split enter as assumed contracts; the key set of dnsRewriteRRHandlers is read from the package initialiser and the map is checked syntactically never to be written elsewhere.",
